@@ -1,6 +1,6 @@
 //verif:package github.com/kstenerud/go-concise-encoding/cte
 //verif:config cap=300
-//verif:bounds all 7 format settings x the 8 integer array kinds; element value: all values for 8/16-bit kinds; 32-bit kinds for the binary, octal and hexadecimal settings in the quick tier; thorough adds 64-bit kinds for those settings and 32-bit decimal (symbolic division by powers of ten); one or two elements per array
+//verif:bounds all 7 format settings x the 8 integer array kinds; element value: all values for 8/16-bit kinds; 32-bit kinds for the binary, octal and hexadecimal settings in the quick tier; 64-bit kinds at the range edges (top byte symbolic, low bytes all-zero or all-one) for those settings in the quick tier; thorough adds 64-bit kinds with every bit symbolic for those settings and 32-bit decimal (symbolic division by powers of ten); one or two elements per array
 //verif:assume the association array header -> parse base (@u8b[ -> 2, @u8o[ -> 8, @u8x[ -> 16, @u8[ -> 0) is made by the grammar and listener dispatch (ANTLR, not executed): the harness applies the same mapping; float kinds (strconv float text) are outside reach
 package cte
 
@@ -104,7 +104,22 @@ func c25Check(fi, ki int) {
 	if k.bits > 16 {
 		n = 1
 	}
-	data := verifrt.Bytes("e", n*k.bits/8)
+	c25CheckData(fi, ki, n, verifrt.Bytes("e", n*k.bits/8))
+}
+
+// 64-bit kinds at the edges of their range, in the quick tier: the seven low
+// bytes are all 0x00 or all 0xff and the top byte is symbolic (MinInt64,
+// MaxInt64, -1, MaxUint64, 2^56 multiples ... are all in this set).
+func Verif_C25_Int64Edges() {
+	fi := verifrt.Choice("format", 6) + 1
+	ki := verifrt.Choice("kind", 2) + 6
+	fill := []byte{0x00, 0xff}[verifrt.Choice("lowBytes", 2)]
+	top := verifrt.U8("top")
+	c25CheckData(fi, ki, 1, []byte{fill, fill, fill, fill, fill, fill, fill, top})
+}
+
+func c25CheckData(fi, ki, n int, data []byte) {
+	k := c25Kinds[ki]
 	cfg := configuration.New()
 	c25SetFormat(cfg, k.at, c25Formats[fi])
 	sink := &verifh.Sink{}
